@@ -203,3 +203,35 @@ func TestReplaySearchPointerAlias(t *testing.T) {
 		t.Fatalf("CONFIRMED: F.P and F.Q point to the same struct; `%s` ends with V=%d (want 3), Execute returned an error: %v - the condition remembered for F.P.V survived the write through F.Q.V", grl, in.V, res != nil)
 	}
 }
+
+// F30 (A-ALIAS, the collection-element family of F25 seen one level down): a FIELD of a slice element written through a literal
+// selector is also named by a computed selector. Rule A (salience 10) writes F.Items[0].Price = 1; rule B's condition
+// F.Items[F.I].Price > 3 (with F.I == 0) was remembered as true before the write and must be false afterwards.
+type replayElemItem struct{ Price int64 }
+type replayElemFact struct {
+	Items []*replayElemItem
+	I     int64
+	Hits  int64
+}
+
+func TestReplaySearchElementFieldAlias(t *testing.T) {
+	grl := `rule A "a" salience 10 { when F.Items[F.I].Price > 3 && F.Hits == 0 then F.Hits = 1; F.Items[0].Price = 1; }
+rule B "b" salience 5 { when F.Items[F.I].Price > 3 && F.Hits == 1 then F.Hits = 2; }`
+	lib := ast.NewKnowledgeLibrary()
+	if err := builder.NewRuleBuilder(lib).BuildRuleFromResource("K", "1", pkg.NewBytesResource([]byte(grl))); err != nil {
+		t.Fatalf("build %s: %v", grl, err)
+	}
+	kb, err := lib.NewKnowledgeBaseInstance("K", "1")
+	if err != nil {
+		t.Fatal(err)
+	}
+	f := &replayElemFact{Items: []*replayElemItem{{Price: 9}}}
+	d := ast.NewDataContext()
+	d.Add("F", f)
+	e := NewGruleEngine()
+	e.MaxCycle = 30
+	res := e.Execute(d, kb)
+	if res != nil || f.Hits != 1 {
+		t.Fatalf("CONFIRMED: F.Items[0].Price and F.Items[F.I].Price (F.I == 0) name the same field; after rule A wrote F.Items[0].Price = 1 rule B fired on its remembered `F.Items[F.I].Price > 3`: Hits=%d (want 1), Price=%d, Execute error: %v", f.Hits, f.Items[0].Price, res != nil)
+	}
+}
